@@ -39,7 +39,7 @@ TOKENS = ['', '0', '1', '5', '12', '007', '-3', '+4', '--1', '1.5', '.5', '5.', 
           'ye', 'yess', 'nope', 't', 'f', '2', '-0', '01', '0.0', 'none', 'None', 'null',
           'Single', 'single', 'SINGLE', 'Singl', 'Single1', 'MarriedFilingJointly', 'marriedfilingjointly', 'Married Filing Jointly',
           'HeadOfHousehold', 'QualifyingSurvivingSpouse', 'QualifyingWidowWidower', 'NC', 'nc', 'N C', 'NCC', 'taxpayer', 'spouse', 'both',
-          'Taxpayer', '__members__', '__class__', 'name', 'value', 'mro',
+          'Taxpayer', '__members__', '__class__', 'name', 'value', 'mro', '__doc__', '__module__', '_member_map_', '__len__',
           '123456789', '123-45-6789', '123-456-789', '1234-5-6789', '12345678', '1234567890', '12345678９', '123 45 6789', '-123456789-', '---------',
           '021000021', '121000021', '331000021', '0210000210', '02100002', 'ACCT-001', 'a' * 17, 'a' * 18, 'acct_1', 'acct 1', '9' * 400, '9' * 5000,
           'x', 'Jane Q. Public', 'a=b', 'a:b', '[x]', '#c', ';c', '\x00', 'é', '🙂']
